@@ -31,3 +31,29 @@ open MdIt MdIt.Pipeline
 #print axioms rmap_joinNode
 #print axioms final_stage
 #print axioms inlineExact_of_plain
+
+#check @doc_final_newline_invariant_sp_full
+#check @doc_crlf_invariant_sp_full
+#check @doc_final_newline_invariant_sp_tabFree
+#check @doc_crlf_invariant_sp_tabFree
+#check @doc_starts_on_bytes
+#check @Block.parseBlocks_anchored
+#check @Block.LX.Y.parseBlocks_crlf_strict
+#check @C10SP.parseInline_exact
+#check @doc_placeholder_segs
+#check @tr_shift
+#check @doc_final_newline_sp_of_inline
+#check @doc_crlf_sp_of_inline
+
+#print axioms doc_final_newline_invariant_sp_full
+#print axioms doc_crlf_invariant_sp_full
+#print axioms doc_final_newline_invariant_sp_tabFree
+#print axioms doc_crlf_invariant_sp_tabFree
+#print axioms doc_starts_on_bytes
+#print axioms Block.parseBlocks_anchored
+#print axioms Block.LX.Y.parseBlocks_crlf_strict
+#print axioms C10SP.parseInline_exact
+#print axioms doc_placeholder_segs
+#print axioms tr_shift
+#print axioms doc_final_newline_sp_of_inline
+#print axioms doc_crlf_sp_of_inline
